@@ -14,7 +14,7 @@ from pathlib import Path
 from typing import Any, Callable
 
 os.environ.setdefault("STABILIZE_MAX_STAGE_WAIT_RETRIES", "2")
-os.environ.setdefault("STABILIZE_HANDLER_RETRY_DELAY_S", "0.001")
+os.environ.setdefault("STABILIZE_HANDLER_RETRY_DELAY_S", "864000")   # "delayed" messages are recognisable by deliver_at
 
 WAIT_MAX = int(os.environ["STABILIZE_MAX_STAGE_WAIT_RETRIES"])
 
@@ -126,6 +126,46 @@ MSG_CODE = {
 }
 
 
+class Kill(BaseException):
+    """The worker process is killed: not an Exception, so none of the engine's error paths run."""
+
+
+class _KillState:
+    armed: int | None = None     # kill when this many commits have completed
+    count = 0                    # durable commits since the last arm/reset
+    dead = False
+
+
+def install_kill_shim() -> None:
+    """Make every engine connection a Connection subclass that can die at the k-th durable commit."""
+    import stabilize.persistence.connection as pc
+
+    if getattr(pc.sqlite3, "_verif_shim", False):
+        return
+    real = pc.sqlite3
+
+    class KillConn(real.Connection):
+        def commit(self):  # noqa: ANN201
+            if self.in_transaction:
+                if _KillState.dead or (_KillState.armed is not None and _KillState.count >= _KillState.armed):
+                    _KillState.dead = True
+                    raise Kill()
+                _KillState.count += 1
+            return super().commit()
+
+    class Shim:
+        _verif_shim = True
+
+        def connect(self, *a, **kw):  # noqa: ANN201
+            kw.setdefault("factory", KillConn)
+            return real.connect(*a, **kw)
+
+        def __getattr__(self, name):  # noqa: ANN001, ANN204
+            return getattr(real, name)
+
+    pc.sqlite3 = Shim()
+
+
 def reset_globals() -> None:
     from stabilize import RunTaskHandler
     from stabilize.events import reset_event_bus, reset_event_migrator, reset_event_recorder
@@ -140,6 +180,10 @@ def reset_globals() -> None:
     reset_event_recorder()
     reset_event_migrator()
     reset_deduplicator()
+    # the default process-wide bloom filter (100 000 items) costs ~130 ms per message in fill_ratio
+    from stabilize.queue.dedup import get_deduplicator
+
+    get_deduplicator(expected_items=5000)
 
 
 class _NoCircuit:
@@ -177,6 +221,16 @@ class Engine:
         from stabilize.resilience.config import HandlerConfig
 
         reset_globals()
+        # handlers other than RunTask read the process-wide config: force ours, whatever was loaded before
+        os.environ["STABILIZE_MAX_STAGE_WAIT_RETRIES"] = str(WAIT_MAX)
+        os.environ["STABILIZE_HANDLER_RETRY_DELAY_S"] = "864000"
+        from stabilize.resilience.config import reset_handler_config
+
+        reset_handler_config()
+        install_kill_shim()
+        _KillState.armed = None
+        _KillState.dead = False
+        _KillState.count = 0
         self.store = SqliteWorkflowStore(self.url, create_tables=True)
         self.queue = SqliteQueue(self.url, lock_duration=timedelta(hours=1))
         self.queue._create_table()
@@ -184,8 +238,8 @@ class Engine:
         for s, st in enumerate(self.spec.stages):
             for t in range(len(st.tasks)):
                 self.registry.register(f"T_{s}_{t}", make_task(self.world, s, t))
-        hc = HandlerConfig(task_backoff_min_delay_ms=1, task_backoff_max_delay_ms=2, max_stage_wait_retries=WAIT_MAX,
-                           handler_retry_delay_seconds=0.001)
+        hc = HandlerConfig(task_backoff_min_delay_ms=864000000, task_backoff_max_delay_ms=864000001,
+                           max_stage_wait_retries=WAIT_MAX, handler_retry_delay_seconds=864000)
         # the per-workflow circuit breaker is volatile in-memory state outside the model: pass-through
         self.processor = QueueProcessor(self.queue, store=self.store, task_registry=self.registry, handler_config=hc,
                                         circuit_factory=_NoCircuit())
@@ -287,6 +341,11 @@ class Engine:
         rows = self.ro.execute("SELECT id, message_type, payload, attempts FROM queue_messages ORDER BY id").fetchall()
         return [(r["id"], self.msg_code(r["message_type"], json.loads(r["payload"])), r["attempts"]) for r in rows]
 
+    def delayed_ids(self) -> set[int]:
+        """rows pushed with a delay (wait re-polls, polling / transient RunTask): deliver_at is days ahead"""
+        rows = self.ro.execute("SELECT id FROM queue_messages WHERE datetime(deliver_at) > datetime('now', '+1 day')").fetchall()
+        return {r[0] for r in rows}
+
     def state_line(self) -> str:
         w = self.ro.execute("SELECT status, is_canceled FROM pipeline_executions WHERE id=?", (self.wf_id,)).fetchone()
         parts = [f"W={w['status']},{int(bool(w['is_canceled']))}"]
@@ -363,6 +422,41 @@ class Engine:
             m.set_error_context(e)
             self.queue.reschedule(m, timedelta(0))
             return "raised:" + type(e).__name__
+
+    def crash(self, row_id: int, k: int) -> tuple[str, int]:
+        """Deliver `row_id`, kill the worker when k durable commits of this delivery have completed, restart.
+
+        Returns ("killed", k) or ("completed", total commits) when the delivery has fewer than k+1 commits."""
+        m = self._load(row_id)
+        if m is None:
+            return "no-row", 0
+        _KillState.count = 0
+        _KillState.dead = False
+        _KillState.armed = k
+        outcome = "completed"
+        try:
+            self.processor._handle_message(m)
+            self.queue.ack(m)
+        except Kill:
+            outcome = "killed"
+        except Exception as e:
+            from datetime import timedelta
+
+            try:
+                m.set_error_context(e)
+                self.queue.reschedule(m, timedelta(0))
+                outcome = "raised:" + type(e).__name__
+            except Kill:
+                outcome = "killed"
+        n = _KillState.count
+        _KillState.armed = None
+        self.restart()
+        return outcome, n
+
+    def count_commits(self, fn) -> int:  # noqa: ANN001
+        _KillState.count = 0
+        fn()
+        return _KillState.count
 
     def cancel(self) -> None:
         self.orch.cancel(self._wf_obj, "verif", "injected")
